@@ -4,7 +4,7 @@ from facts import strip_generics, callee_of
 import sym
 import c01, c12, consume
 
-CONFIGS_QUICK = ["F_all"]
+CONFIGS_QUICK = ["F_all", "F_def", "F_noenc"]  # every configuration whose cfg-gated code the property depends on
 CONFIGS_THOROUGH = ["F_all", "F_def", "F_noenc"]
 TECHNIQUE = 'static analysis: macro-provenance sibling check (async = sync macro bodies), path summaries consumed=advanced on MIR paths, loop-carried state rule, split-terminator table'
 EXPLANATION = (
